@@ -1,0 +1,118 @@
+//go:build verif
+
+package activeauth
+
+// Contracts for gvc (contract-based deductive verification, see /verif/DESIGN.md).
+// Comment-only file, compiled only under the build tag "verif".
+//
+// Active Authentication, ICAO 9303-11 §6.1 and ISO/IEC 9796-2 digital signature scheme 1 (partial recovery):
+//   RSA:   F = s^e mod n (s = OS2IP(response) in [0, n-1]) as a minimal octet string must be
+//          6A || M1 || H(M1 || RND.IFD) || T  with T = BC (SHA-1) or 38CC/34CC/36CC/35CC (SHA-224/256/384/512)
+//   ECDSA: the response is r || s (plain, TR-03111) or DER SEQUENCE{r, s}; the ECDSA equation must hold for the
+//          DG15 key over H(RND.IFD) with H chosen by the key size.
+
+// trailer field T of ISO/IEC 9796-2 for a hash identifier (crypto.Hash: 3 SHA-1, 4 SHA-224, 5 SHA-256, 6 SHA-384, 7 SHA-512)
+//@ spec func trailerSeq(alg int) seq { alg == 3 ? seq(188) : seq(alg == 4 ? 56 : (alg == 5 ? 52 : (alg == 6 ? 54 : 53)), 204) }
+// F = 6A || M1 || H(M1 || RND.IFD) || T
+//@ pred valid9796(f seq, m1 seq, alg int, rnd seq) { 3 <= alg && alg <= 7 && f === cat(seq(106), m1, hashF(alg, cat(m1, rnd)), trailerSeq(alg)) }
+
+//@ func decodeF
+//@   props C07 C12 C14
+//@   ensures "hash-from-trailer": err == nil ==> 3 <= hashAlg && hashAlg <= 7 && len(d) == hashLen(hashAlg)
+//@   ensures "structure": err == nil ==> f === cat(seq(106), m1, d, trailerSeq(hashAlg))
+//@   ensures err != nil ==> m1 == nil && d == nil
+//@   ensures fresh(m1) && fresh(d)
+//@   assigns nothing
+//@   safety all
+
+//@ func (sig EcdsaSignature) isWellFormed
+//@   props C07 C12 C14
+//@   ensures result == (sig.R != nil && sig.R.val > 0 && sig.S != nil && sig.S.val > 0)
+//@   assigns nothing
+//@   safety all
+
+//@ func parseEcdsaSignaturePlain
+//@   props C07 C12 C14
+//@   ensures "r-s-are-the-two-halves": err == nil ==> sig != nil && sig.R != nil && sig.S != nil && len(sigBytes) > 0 && len(sigBytes) % 2 == 0
+//@        && sig.R.val == beS(sigBytes[:len(sigBytes) / 2]) && sig.S.val == beS(sigBytes[len(sigBytes) / 2:])
+//@        && sig.R.val > 0 && sig.S.val > 0
+//@   ensures err != nil ==> sig == nil
+//@   ensures fresh(sig)
+//@   assigns nothing
+//@   safety all
+
+//@ func parseEcdsaSignatureDER
+//@   props C07 C12 C14
+//@   ensures "r-s-are-the-der-integers": err == nil ==> sig != nil && sig.R != nil && sig.S != nil
+//@        && sig.R.val == derIntR(sigBytes) && sig.S.val == derIntS(sigBytes) && sig.R.val > 0 && sig.S.val > 0
+//@   ensures err != nil ==> sig == nil
+//@   ensures fresh(sig)
+//@   assigns nothing
+//@   safety all
+
+// The three ways a response is accepted, as predicates over the DG15 key octets, the response and the challenge.
+//@ pred aaRsaOK(kb seq, rsp seq, m1 seq, alg int, rnd seq) { rsaModN(kb) > 0 && beS(rsp) < rsaModN(kb)
+//@        && valid9796(minBytes(modexp(beS(rsp), rsaExpE(kb), rsaModN(kb))), m1, alg, rnd) }
+
+//@ func ValidateActiveAuthSignature
+//@   props C07 C14
+//@   requires dg15 != nil
+//@   ensures "evidence-records-challenge-and-response": result != nil ==> result.Evidence != nil && result.Evidence.Nonce === rndIfd && result.Evidence.Signature === intAuthRspBytes
+//@   ensures "success-iff-no-error": result != nil ==> (result.Success == (err == nil))
+//@   ensures "no-result-without-key": result == nil ==> err != nil
+//@   proves "rsa-key-of-dg15": result != nil && result.Success && pubKey != nil ==> pubKey.N != nil
+//@        && pubKey.N.val == rsaModN(spkiKeyBytes(dg15.SubjectPublicKeyInfoBytes)) && pubKey.E == rsaExpE(spkiKeyBytes(dg15.SubjectPublicKeyInfoBytes)) && pubKey.N.val > 0
+//@   proves "rsa-recovered-representative": result != nil && result.Success && pubKey != nil ==> beS(intAuthRspBytes) < pubKey.N.val
+//@        && beS(f) == modexp(beS(intAuthRspBytes), pubKey.E, pubKey.N.val) && (len(f) == 0 || f[0] != 0)
+//@   proves "rsa-minimal-octets": result != nil && result.Success && pubKey != nil ==> seqid(minBytes(beS(f)), f)
+//@   proves "rsa-hash-input-is-m1-then-challenge": result != nil && result.Success && pubKey != nil ==> m === cat(m1, rndIfd) && expD === hashF(hashAlg, m)
+//@   proves "rsa-digest-over-m1-and-challenge": result != nil && result.Success && pubKey != nil ==> 3 <= hashAlg && hashAlg <= 7 && d === hashF(hashAlg, cat(m1, rndIfd))
+//@   proves "rsa-9796-2-structure": result != nil && result.Success && pubKey != nil ==> valid9796(f, m1, hashAlg, rndIfd)
+//@   proves "accepted-only-if-valid-signature-over-the-challenge": result != nil && result.Success ==>
+//@        (pubKey != nil && aaRsaOK(spkiKeyBytes(dg15.SubjectPublicKeyInfoBytes), intAuthRspBytes, m1, hashAlg, rndIfd))
+//@     || (ecKeyOf(spkiKeyBytes(dg15.SubjectPublicKeyInfoBytes), spkiAlgParams(dg15.SubjectPublicKeyInfoBytes), ref(pub.Curve), pub.X.val, pub.Y.val)
+//@         && len(intAuthRspBytes) > 0 && len(intAuthRspBytes) % 2 == 0
+//@         && ecdsaOK(ref(pub.Curve), pub.X.val, pub.Y.val, hashF(ecHashForOrderBits(bitlen(curveOrder(ref(pub.Curve)))), rndIfd),
+//@                    beS(intAuthRspBytes[:len(intAuthRspBytes) / 2]), beS(intAuthRspBytes[len(intAuthRspBytes) / 2:])))
+//@     || (ecKeyOf(spkiKeyBytes(dg15.SubjectPublicKeyInfoBytes), spkiAlgParams(dg15.SubjectPublicKeyInfoBytes), ref(pub.Curve), pub.X.val, pub.Y.val)
+//@         && len(intAuthRspBytes) > 0 && intAuthRspBytes[0] == 48
+//@         && ecdsaOK(ref(pub.Curve), pub.X.val, pub.Y.val, hashF(ecHashForOrderBits(bitlen(curveOrder(ref(pub.Curve)))), rndIfd),
+//@                    derIntR(intAuthRspBytes), derIntS(intAuthRspBytes)))
+//@   assigns nothing
+//@   safety all
+
+//@ func (activeAuth *ActiveAuth) WithChallenge
+//@   props C07
+//@   requires activeAuth != nil
+//@   ensures "eight-octets-or-rejected": (result1 == nil) == (len(challenge) == 8)
+//@   ensures "stored-as-given": result1 == nil ==> result0 == activeAuth && activeAuth.challenge === challenge && activeAuth.challenge != nil
+//@   ensures result1 != nil ==> result0 == nil && activeAuth.challenge == old(activeAuth.challenge)
+//@   assigns activeAuth.challenge
+//@   safety all
+
+//@ func (activeAuth *ActiveAuth) randomIfd
+//@   props C07
+//@   requires activeAuth != nil && (activeAuth.challenge == nil ==> activeAuth.randomBytesFn != nil)
+//@   ensures "caller-supplied-challenge-is-used": activeAuth.challenge != nil ==> result === activeAuth.challenge
+//@   ensures "eight-octets-otherwise": activeAuth.challenge == nil ==> len(result) == 8
+//@   assigns nothing
+//@   safety all
+
+//@ func (activeAuth *ActiveAuth) DoActiveAuth
+//@   props C07 C11
+//@   requires activeAuth != nil && activeAuth.document != nil && *activeAuth.document != nil && activeAuth.nfcSession != nil && validNfc(*activeAuth.nfcSession)
+//@   requires activeAuth.challenge == nil ==> activeAuth.randomBytesFn != nil
+//@   requires activeAuth.challenge != nil ==> len(activeAuth.challenge) == 8
+//@   ensures "skipped-without-dg15": (*activeAuth.document).Mf.Lds1.Dg15 == nil ==> result == nil && err == nil
+//@   ensures "success-iff-no-error": result != nil ==> (result.Success == (err == nil))
+//@   proves "challenge-sent-is-challenge-verified-and-recorded": result != nil && result.Success ==>
+//@        iaChallenge(ref(intAuthRspBytes)) === rndIfd && result.Evidence != nil && result.Evidence.Nonce === rndIfd && result.Evidence.Signature === intAuthRspBytes
+//@   proves "caller-supplied-challenge-is-the-one-sent": result != nil && result.Success && len(old(activeAuth.challenge)) > 0 ==> rndIfd === old(activeAuth.challenge)
+//@   safety all
+
+//@ func VerifyEvidence
+//@   props C07 C14 C12
+//@   requires doc != nil
+//@   ensures "verdict-only-from-signature-validation": result0 != nil && result0.Success ==> result1 == nil && evidence != nil && doc.Mf.Lds1.Dg15 != nil
+//@        && result0.Evidence != nil && result0.Evidence.Nonce === evidence.Nonce && result0.Evidence.Signature === evidence.Signature
+//@   safety all
